@@ -56,7 +56,8 @@ def render_batch(items: List[Dict[str, Any]]) -> str:
     out = ["import icontract\n", exprs.SUPPORT, "\n"]
     for it in items:
         k = it["k"]
-        lam_params = it["lam_params"]
+        # parameters of the condition which the function does not have keep their own default values
+        lam_params = list(it["lam_params"]) + ["{}={!r}".format(n, v) for n, v in it.get("lam_defaults", {}).items()]
         deco = "require" if it["role"] == "pre" else "ensure"
         if it["role"] == "inv":
             out.append("def make_{k}(c1):\n".format(k=k))
@@ -85,7 +86,7 @@ def materialise(mod: Any, vals: Dict[str, Any]) -> Dict[str, Any]:
     return out
 
 
-def classify(item: Dict[str, Any], key: str, what: str, twin: exprs.Twin) -> str:
+def classify(item: Dict[str, Any], key: str, what: str, twin: exprs.Twin, detail_text: str = "") -> str:
     expr = item["expr"]
     tree = ast.parse(expr, mode="eval")
     # mechanism keys are structural: which construct encloses / is the misreported sub-expression
@@ -96,6 +97,10 @@ def classify(item: Dict[str, Any], key: str, what: str, twin: exprs.Twin) -> str
             # the `or` is part of the misreported text and CPython's value of it is not the object True
             if seg and seg in key and key != seg and any(v is not True for v in vals):
                 return "C06/or-recomputed-as-true"
+    if "all(" in key and what == "wrong-value" and "FirstExceptionInAll" in detail_text:
+        return "C06/first-exception-object-leaks-into-enclosing-expression"
+    if item.get("lam_defaults") and any(x in key for x in item["lam_defaults"]):
+        return "C06/condition-default-shadowed-by-global"
     if item.get("extra_params") and any(x in key for x in item["extra_params"]):
         return "C06/call-argument-shadows-condition-variable"
     if what == "wrong-value":
@@ -119,6 +124,7 @@ def judge(w, mod: Any, item: Dict[str, Any], twin: exprs.Twin, kwargs: Dict[str,
     except BaseException as err:  # pylint: disable=broad-except
         exc = err
     case = {"expr": item["expr"], "role": item["role"], "values": {k: repr(v) for k, v in kwargs.items()}, "c1": item["c1"],
+            "lam_defaults": item.get("lam_defaults", {}),
             "params": item["params"], "shadow": item["shadow"], "extra_params": item.get("extra_params", [])}
     w.count("violating_calls")
     if not isinstance(exc, icontract.ViolationError) or not CAPTURED:
@@ -153,6 +159,7 @@ def judge(w, mod: Any, item: Dict[str, Any], twin: exprs.Twin, kwargs: Dict[str,
     env_for_eval = dict(vars(mod))
     env_for_eval.update({k: v for k, v in all_kwargs.items() if k in item["lam_params"]})
     env_for_eval.update(closure)
+    env_for_eval.update(item.get("lam_defaults", {}))
     keys_shown = set()
     detail = {"message": msg, "cpython": {twin.node_text[i]: [a_repr.repr(v) for v in vals][:3] for i, vals in twin.values.items()}}
     for part in parts:
@@ -214,7 +221,7 @@ def judge(w, mod: Any, item: Dict[str, Any], twin: exprs.Twin, kwargs: Dict[str,
             continue
         want = {a_repr.repr(v) for v in truths}
         if vstr not in want:
-            w.violation(classify(item, key, "wrong-value", twin), "`{} was {}` but Python computes {}".format(key, vstr[:120], sorted(want)[:3]), case, detail)
+            w.violation(classify(item, key, "wrong-value", twin, vstr), "`{} was {}` but Python computes {}".format(key, vstr[:120], sorted(want)[:3]), case, detail)
     # completeness
     none_bound = any(v is None for k, v in all_kwargs.items() if k in item["lam_params"]) or "G_NONE" in item["expr"]
     if none_bound:
@@ -279,13 +286,19 @@ def run_batch(w, batch_no: int, n_items: int, guarded_bias: float) -> None:
             snapshot_of = lam[0]
             expr = "OLD.old_{p} == {p} and ({e})".format(p=snapshot_of, e=expr)
             lam = lam + ["OLD"]
+        lam_defaults = {}
+        if role == "pre" and rng.random() < 0.12:
+            # a parameter of the CONDITION (not of the function) with a default, named like a global the condition uses
+            for gname, gval in (("G_INT", rng.randint(20, 30)), ("G_STR", "dflt"), ("G_LIST", [9, 8])):
+                if gname in expr and rng.random() < 0.7:
+                    lam_defaults[gname] = gval
         extra = []
-        if rng.random() < 0.15:
+        if not lam_defaults and rng.random() < 0.15:
             # the function (not the condition) has parameters named like a global / the closure variable the condition uses
             extra = [x for x in ("G_INT", "c1", "G_LIST") if x in expr and rng.random() < 0.7]
         items.append({"k": "{}_{}".format(batch_no, i), "expr": expr, "params": params, "lam_params": lam, "role": role,
                       "c1": env.closure["c1"], "env": env, "shadow": shadow, "ret_value": None, "extra_params": extra,
-                      "snapshot_of": snapshot_of})
+                      "snapshot_of": snapshot_of, "lam_defaults": lam_defaults})
     loaded = prog.load_source(render_batch(items), w.scratch())
     mod = loaded.module
     try:
@@ -293,7 +306,7 @@ def run_batch(w, batch_no: int, n_items: int, guarded_bias: float) -> None:
             env = it["env"]
             names = [p for p in it["lam_params"] if p not in ("result", "OLD")]
             try:
-                twin = exprs.Twin(it["expr"], names + [x for x in ("result", "OLD") if x in it["lam_params"]], ["c1"])
+                twin = exprs.Twin(it["expr"], names + [x for x in ("result", "OLD") if x in it["lam_params"]] + list(it.get("lam_defaults", {})), ["c1"])
             except Exception as err:  # pylint: disable=broad-except
                 w.mark_inconclusive("twin construction failed for {!r}: {!r}".format(it["expr"], err))
                 continue
@@ -307,6 +320,7 @@ def run_batch(w, batch_no: int, n_items: int, guarded_bias: float) -> None:
                     import types as _types  # pylint: disable=import-outside-toplevel
                     tw_kwargs["OLD"] = _types.SimpleNamespace(**{"old_" + it["snapshot_of"]: vals[it["snapshot_of"]]})
                 tw_kwargs["c1"] = it["c1"]
+                tw_kwargs.update(it.get("lam_defaults", {}))
                 raised, value = twin.evaluate(vars(mod), tw_kwargs)
                 if raised:
                     continue
